@@ -43,9 +43,20 @@ IsEv(e) == l <= Len(T.steps) /\ Ev.e = e /\ l' = l + 1 /\ UNCHANGED t
 THit  == IsEv("hit")  /\ \E k \in Cand(Ev.key) : C!Hit(k) /\ C!LeftOf(k)' = Ev.left /\ C!Evicted(k)' = Ev.evict
 TMiss == IsEv("miss") /\ \E k \in Cand(Ev.key) : C!Miss(k, Ev.save)
 TSave == IsEv("save") /\ \E k \in Cand(Ev.key) : C!Save(k)
+(* the two shortcuts that return without storing (Cache.Shortcut):                                           *)
+(*  - a "fixed-point" pattern event directly after a saving miss of the steady-state pattern itself (the     *)
+(*    canonical text of the key says so; otherwise the event belongs to an unmarked child)                   *)
+(*  - an "empty" event after miss, open: the quantifier that missed has an empty domain                      *)
+SteadyText == "(!{var0}: (AX {var0}))"
+AfterSavingMiss == /\ l > 1 /\ T.steps[l - 1].e = "miss" /\ T.steps[l - 1].save /\ T.steps[l - 1].key = SteadyText
+                   /\ Ev.kind = "fixed-point"
+TPattern == IsEv("pattern") /\ AfterSavingMiss /\ \E k \in Cand(T.steps[l - 1].key) : C!Shortcut(k)
+AfterSavingMissOpen == l > 2 /\ T.steps[l - 1].e = "open" /\ T.steps[l - 2].e = "miss" /\ T.steps[l - 2].save
+TEmpty == IsEv("empty") /\ AfterSavingMissOpen /\ \E k \in Cand(T.steps[l - 2].key) : C!Shortcut(k)
 TOther == /\ l <= Len(T.steps) /\ Ev.e \in {"pattern", "open", "empty", "close", "ret"}
+          /\ (Ev.e = "pattern" => ~AfterSavingMiss) /\ (Ev.e = "empty" => ~AfterSavingMissOpen)
           /\ l' = l + 1 /\ UNCHANGED <<duplicates, cache, stack, hits, saved, t>>
-Next == THit \/ TMiss \/ TSave \/ TOther
+Next == THit \/ TMiss \/ TSave \/ TPattern \/ TEmpty \/ TOther
 
 (* the design's invariants, in every state of every behaviour that explains a prefix of the trace *)
 Inv == /\ C!CacheWithinMarked /\ C!CountersPositive /\ C!FetchBound(D0(T)) /\ C!WildKept(C0(T))
